@@ -792,6 +792,9 @@ fn explore(cfg: &Cfg) -> (Stats, u64, u64) {
                 for ab in &absorbed {
                     for tail in [Op::Str("b"), Op::Str("x"), Op::Rule(2, Box::new(Op::Skip(1)))] {
                         for first in [Op::Rule(1, Box::new(Op::Str("a"))), Op::Rule(1, Box::new(Op::Rule(2, Box::new(Op::Str("a")))))] {
+                            // the same token tagged twice in one scope (the undo order matters)
+                            let twice = at(at(at(inner(Op::Tag("t")), Op::Tag("v")), ab.clone()), tail.clone());
+                            work.push(("tag-scopes".into(), at(first.clone(), Op::Opt(Box::new(outer(twice))))));
                             let body = at(at(inner(Op::Tag("t")), ab.clone()), tail.clone());
                             work.push(("tag-scopes".into(), at(first.clone(), Op::Opt(Box::new(outer(body.clone()))))));
                             work.push(("tag-scopes".into(), at(first, outer(body))));
